@@ -1,6 +1,7 @@
 import QipVerif.Lemmas.SchedPulse
 import QipVerif.Lemmas.SchedOracle
 import QipVerif.Lemmas.SchedRuleGen
+import QipVerif.Lemmas.SchedCons
 /-!
 # C11 — pulse schedules are physically valid timetables
 
@@ -205,5 +206,81 @@ theorem C11_counterexample_no_overlap :
   have h2 : noOverlap witness (pulseStarts ⟨false, true, [], false⟩ witness) = false := by decide +kernel
   rw [h1] at h2
   exact absurd h2 (by simp)
+
+/-! ## user constraint functions (`Scheduler(constraint_functions=…)`)
+
+`startsGenW (shOf fs ns) …` is the pulse schedule for the list `fs` of constraint functions (`Model/SchedCons.lean`;
+`apply_constraint` regenerated from the source as the conjunction, `C05.apply_constraint_is_conjunction`); the default
+list gives the schedule of the theorems above (`constraints_default`). -/
+
+theorem constraints_default : startsGenW (shOf [.qubit] ns) alap allowPerm fx ns O2 = startsGen alap allowPerm fx ns O2 :=
+  startsGenW_default alap allowPerm fx ns O2
+
+/-- **timetable_cons_any** — for EVERY constraint list (also without `qubit_constraint`, also the empty list), both
+variants of the recording: non-negative starts, earliest start 0, the dependency inequality, the makespan bound. -/
+theorem timetable_cons_any (fs : List CFun) (hO : ∀ r l, (O2 r l).Perm l) (hdur : ∀ a ∈ ns, 0 ≤ a.dur) :
+    (∀ i, i < ns.length → 0 ≤ (startsGenW (shOf fs ns) alap allowPerm fx ns O2).getD i 0) ∧
+    (ns ≠ [] → ∃ i, i < ns.length ∧ (startsGenW (shOf fs ns) alap allowPerm fx ns O2).getD i 0 = 0) ∧
+    (∀ i j, i < j → j < ns.length → shareIdx ns i j = true → commIdx allowPerm ns j i = false →
+      (startsGenW (shOf fs ns) alap allowPerm fx ns O2).getD i 0 + durIdx ns i ≤
+        (startsGenW (shOf fs ns) alap allowPerm fx ns O2).getD j 0) ∧
+    (∀ i, i < ns.length → (startsGenW (shOf fs ns) alap allowPerm fx ns O2).getD i 0 + durIdx ns i ≤ (ns.map Ins.dur).sum) := by
+  have hd := durIdx_nonneg ns hdur
+  refine ⟨?_, ?_, ?_, ?_⟩
+  · intro i hi
+    rw [startsGenW_getD (shOf fs ns) alap allowPerm fx ns O2 hi]
+    exact startOfW_nonneg (shOf fs ns) alap allowPerm fx ns O2 hO hd hi
+  · intro hne
+    obtain ⟨i, hi, h0⟩ := exists_start_zeroW (shOf fs ns) alap allowPerm fx ns O2 hO hne
+    exact ⟨i, hi, by rw [startsGenW_getD (shOf fs ns) alap allowPerm fx ns O2 hi]; exact h0⟩
+  · intro i j hij hj hs hc
+    rw [startsGenW_getD (shOf fs ns) alap allowPerm fx ns O2 (by omega : i < ns.length),
+      startsGenW_getD (shOf fs ns) alap allowPerm fx ns O2 hj]
+    exact dep_ineqW (shOf fs ns) alap allowPerm fx ns O2 hO hd hij hj hs hc
+  · intro i hi
+    rw [startsGenW_getD (shOf fs ns) alap allowPerm fx ns O2 hi]
+    exact finish_le_sumW (shOf fs ns) alap allowPerm fx ns O2 hO hd i
+
+/-- **no_overlap_cons** — repaired recording, `qubit_constraint` among the constraint functions (first, last, anywhere):
+no two distinct instructions sharing a qubit have intersecting execution intervals. -/
+theorem no_overlap_cons (fs : List CFun) (hq : CFun.qubit ∈ fs) (hO : ∀ r l, (O2 r l).Perm l) (hdur : ∀ a ∈ ns, 0 ≤ a.dur) :
+    noOverlap ns (startsGenW (shOf fs ns) alap allowPerm true ns O2) = true := by
+  rw [noOverlap_iff]
+  intro i hi j hj hij
+  have hd := durIdx_nonneg ns hdur
+  have hsub : ∀ a b, shareIdx ns a b = true → shOf fs ns a b = true := fun a b h => shOf_of_qubit hq ns a b h
+  by_cases hs : shareIdx ns i j = true
+  · have hs' : shareIdx ns j i = true := by rw [shareIdx, share_symm]; exact hs
+    unfold overlaps
+    rw [startsGenW_getD (shOf fs ns) alap allowPerm true ns O2 hi, startsGenW_getD (shOf fs ns) alap allowPerm true ns O2 hj]
+    rcases Nat.lt_trichotomy (posOf (cyclesGenW (shOf fs ns) alap allowPerm ns O2) i)
+      (posOf (cyclesGenW (shOf fs ns) alap allowPerm ns O2) j) with hp | hp | hp
+    · have := edge_ineqW (shOf fs ns) alap allowPerm true ns O2 hO
+        (final_edge_of_shareW (shOf fs ns) alap allowPerm ns O2 hO hi hj (fun _ => hsub j i hs') (fun _ => hsub i j hs) hp)
+      have h3 : decide (startOfW (shOf fs ns) alap allowPerm true ns O2 j <
+          startOfW (shOf fs ns) alap allowPerm true ns O2 i + durIdx ns i) = false := by
+        simp only [decide_eq_false_iff_not]; omega
+      simp [h3]
+    · obtain ⟨c, hc, hic, hjc⟩ := same_cycle_of_posW (shOf fs ns) alap allowPerm ns O2 hO hi hj hp
+      rw [cyclesGenW_disjoint (shOf fs ns) alap allowPerm ns O2 hsub c hc i hic j hjc hij] at hs
+      exact absurd hs (by simp)
+    · have := edge_ineqW (shOf fs ns) alap allowPerm true ns O2 hO
+        (final_edge_of_shareW (shOf fs ns) alap allowPerm ns O2 hO hj hi (fun _ => hsub i j hs) (fun _ => hsub j i hs') hp)
+      have h3 : decide (startOfW (shOf fs ns) alap allowPerm true ns O2 i <
+          startOfW (shOf fs ns) alap allowPerm true ns O2 j + durIdx ns j) = false := by
+        simp only [decide_eq_false_iff_not]; omega
+      simp [h3]
+  · unfold overlaps; simp [hs]
+
+/-- two CNOT gates with one control, durations 2 and 3 -/
+def consWitness : List Ins := [treeIns "CNOT" [1] [0] 2, treeIns "CNOT" [2] [0] 3]
+
+/-- **without `qubit_constraint` no-overlap is not provided**: with the empty list the two instructions on qubit 0 both
+start at 0; with `qubit_constraint` first or last in the list they do not overlap. -/
+theorem C11_constraints_absent :
+    pulseStartsW (shOf [] consWitness) ⟨false, true, [], true⟩ consWitness = [0, 0] ∧
+    pulseStartsW (shOf [.qubit, .allowAll] consWitness) ⟨false, true, [], true⟩ consWitness = [3, 0] ∧
+    pulseStartsW (shOf [.allowAll, .qubit] consWitness) ⟨false, true, [], true⟩ consWitness = [3, 0] := by
+  decide +kernel
 
 end QipVerif.C11
